@@ -115,3 +115,112 @@ ident = Contract(
     properties=("C15", "C20", "C16"), min_obligations=3, no_replay=True,
 )
 CONTRACTS.append(ident)
+
+# =================================================================================================
+# ExpressionLowerer.lower_function_call_inline: the callee runs with its parameters bound to the lowered arguments
+# and the CALLER's bindings come back untouched afterwards — parameter values (shadowed ones restored, new ones
+# removed), variables (callee locals gone, shadowed ones restored), entities (the caller's entity of a name the
+# callee reused is kept; entities the callee created under fresh names are handed out) and the inlining stack.
+# Concrete scope shape: 2 parameters (one shadowing an outer parameter), a body of one statement + return.
+# =================================================================================================
+from pyvc.values import Opaque as _Opq  # noqa: E402
+
+TR = {}
+_OUTER_P, _OTHER, _V0, _ARG = _Opq("outer-p"), _Opq("other-param"), _Opq("caller-v"), {}
+
+
+def _arg_effect(ex, a):
+    r = SObj(["SignalRef"], fresh_name("arg"), lazy=True)
+    TR.setdefault("lowered", []).append((a.expr, r))
+    return r
+
+
+def _body_effect(ex, a):
+    me = ex.args_ns.self.parent
+    TR["params_in_body"] = dict(me.param_values)
+    TR["stack_in_body"] = list(me._inlining_stack)
+    me.signal_refs["v"] = _Opq("callee-v")          # callee local shadowing a caller variable
+    me.signal_refs["loc"] = _Opq("callee-local")    # fresh callee local
+    me.entity_refs["lamp"] = "E_callee"             # callee entity named like the caller's
+    me.entity_refs["made"] = "E_new"                # callee entity under a fresh name
+    return None
+
+
+lower_arg = Contract(qualname=EL + "lower_expr", params={"self": _OPQ, "expr": _OPQ}, effect=_arg_effect, verify=False,
+                     note="lowers an argument / the return expression to a fresh reference (recorded)")
+lower_body = Contract(qualname="dsl_compiler/src/lowering/statement_lowerer.py::StatementLowerer.lower_statement", params={"self": _OPQ, "stmt": _OPQ},
+                      effect=_body_effect, verify=False, note="the body statement declares locals and entities (two of them shadowing the caller's)")
+
+
+def _func_lookup(ex, a):
+    return TR["symbol"]
+
+
+func_lookup = Contract(qualname="dsl_compiler/src/semantic/symbol_table.py::SymbolTable.lookup", params={"self": _OPQ, "name": _OPQ}, effect=_func_lookup, verify=False,
+                       note="returns the function symbol")
+
+
+def _inline_post(a, res):
+    me = a.self.parent
+    lowered = dict((id(e), r) for e, r in TR.get("lowered", []))
+    args = a.expr.args
+    ret_expr = TR["ret_expr"]
+    inb = TR.get("params_in_body")
+    if inb is None:
+        return False
+    cs = [inb.get("p") is lowered.get(id(args[0])), inb.get("q") is lowered.get(id(args[1])), inb.get("other") is _OTHER,
+          TR.get("stack_in_body") == ["f"],
+          # afterwards: the caller's world
+          me.param_values == {"p": _OUTER_P, "other": _OTHER},
+          me.signal_refs == {"v": _V0},
+          me.entity_refs.get("lamp") == "E0", me.entity_refs.get("made") == "E_new", set(me.entity_refs) == {"lamp", "made"},
+          me._inlining_stack == [],
+          res is lowered.get(id(ret_expr))]
+    return all(bool(c) for c in cs)
+
+
+def _setup(a):
+    TR.clear()
+    return True
+
+
+def _mk_symbol_type():
+    from pyvc.values import SObj as _S
+    return None
+
+
+_PARAM = lambda n, t: ty.TObj("TypedParam", only=("TypedParam",), ftypes=(("name", ty.TConcrete(n)), ("type_name", ty.TConcrete(t))))  # noqa: E731
+_RET_EXPR = ty.TObj("Expr", only=("BinaryOp",))
+_FUNC = ty.TObj("FuncDecl", only=("FuncDecl",), ftypes=(
+    ("params", ty.TTuple((_PARAM("p", "Signal"), _PARAM("q", "int")))),
+    ("body", ty.TTuple((ty.TObj("Statement", only=("ExprStmt",)), ty.TObj("ReturnStmt", only=("ReturnStmt",), ftypes=(("expr", _RET_EXPR),)))))))
+
+
+def _symbol_effect(ex, a):
+    sym = TR.get("symbol")
+    if sym is None:
+        sym = ex.mk(ty.TObj("Symbol", only=("Symbol",), ftypes=(("symbol_type", ty.TConcrete("function")), ("function_def", _FUNC))), "func_symbol", register=True)
+        TR["symbol"] = sym
+        TR["ret_expr"] = sym.function_def.body[1].expr
+    return sym
+
+
+func_lookup.effect = _symbol_effect
+
+inline_call = Contract(
+    qualname=EL + "lower_function_call_inline",
+    params={"self": ty.TObj("ExpressionLowerer", only=("ExpressionLowerer",)),
+            "expr": ty.TObj("CallExpr", only=("CallExpr",), ftypes=(("name", ty.TConcrete("f")), ("args", ty.TTuple((ty.TObj("Expr", only=("BinaryOp",)), ty.TObj("Expr", only=("BinaryOp",)))))))},
+    requires=[("(reset trace)", _setup)],
+    ensures=[("parameters bound in the body; the caller's parameters, variables, entities and inlining stack are restored exactly", _inline_post)],
+    uses={"ExpressionLowerer.lower_expr": lower_arg, "StatementLowerer.lower_statement": lower_body, "SymbolTable.lookup": func_lookup,
+          "ExpressionLowerer._error": "skip", "IRBuilder.const": "skip", "IRBuilder.allocate_implicit_type": "skip"},
+    dynamic_types={"self": {"parent": ty.TObj("ASTLowerer", only=("ASTLowerer",)), "semantic": ty.TObj("SemanticAnalyzer", only=("SemanticAnalyzer",)),
+                            "ir_builder": ty.TObj("IRBuilder", only=("IRBuilder",))},
+                   "self.parent": {"param_values": ty.TConcrete({"p": _OUTER_P, "other": _OTHER}), "signal_refs": ty.TConcrete({"v": _V0}),
+                                   "entity_refs": ty.TConcrete({"lamp": "E0"}), "_inlining_stack": ty.TConcrete([]),
+                                   "stmt_lowerer": ty.TObj("StatementLowerer", only=("StatementLowerer",)), "returned_entity_id": ty.TConcrete(None)},
+                   "self.semantic": {"current_scope": ty.TObj("SymbolTable", only=("SymbolTable",))}},
+    properties=("C15", "C09", "C16"), min_obligations=1, no_replay=True, note="concrete scope shape (2 parameters, one body statement, return)",
+)
+CONTRACTS += [inline_call, lower_arg, lower_body, func_lookup]
